@@ -422,7 +422,7 @@ fn main() {
                         _ => Policy::Rand(t[2].parse().unwrap(), t.get(3).map(|x| x.parse().unwrap()).unwrap_or(300)),
                     };
                     let (status, sched, counts, ops) = if t[1] == "pre" { ("ok".to_string(), vec![], BTreeMap::new(), vec![]) } else { controlled(&w, &sc, policy) };
-                    let ops: Vec<String> = ops.into_iter().filter(|o| o.contains(":definitions.") || o.contains(":usage_by_fixture.") || o.contains(":file_definitions.")).collect();
+                    let ops: Vec<String> = ops.into_iter().filter(|o| !o.contains(".len(")).collect();
                     let d1 = if status == "ok" { dump(&w) } else { "-".into() };
                     let d2 = if status == "ok" && !sc.after.is_empty() {
                         for op in &sc.after { exec(&w, &sc, op); }
